@@ -318,8 +318,9 @@ def run(ctx):
             else:
                 r9.ok("phonetic:no-shrink", "no truncate/retain/drain/pop on the list in the phonetic builder")
         else:
-            caps = [const_val(strip_refs(b.expr_operand(t["args"][1]))) for (bb, t) in shrink if callee_name(t).endswith("::truncate")
-                    and is_const(strip_refs(b.expr_operand(t["args"][1])), "int")]
+            from engine.analyses import const_fold
+            caps = [const_fold(b.expr_operand(t["args"][1])) for (bb, t) in shrink if callee_name(t).endswith("::truncate")
+                    and const_fold(b.expr_operand(t["args"][1])) is not None]
             longest = max(len(v) for v in emo["bengali"].values()) if emo else None
             longest_names = [k for k, v in emo["bengali"].items() if len(v) == longest] if emo else []
             if not caps or longest is None:
